@@ -1,9 +1,163 @@
 import Driver.Util
+import MpcVerif.Model.Gc
+import MpcVerif.Model.Stream
 
 namespace Drv.C05
+open Mpc Drv Mpc.Gc
 
-/-- Line-protocol handler of property C05 (stub). -/
-def handle (_args : List String) : String := "bad-op"
+/-! ### `gc` / `gco`: Program.GC pass and wire-allocator trace -/
+
+def parseOp (s : String) : Gc.Op :=
+  match s with
+  | "concat" => .concat | "lshift" => .lshift | "rshift" => .rshift | "srshift" => .srshift
+  | "slice" => .slice | "mov" => .mov | "smov" => .smov | "amov" => .amov
+  | "ret" => .ret | "gc" => .gc
+  | _ => .circ
+
+def opName : Gc.Op → String
+  | .concat => "concat" | .lshift => "lshift" | .rshift => "rshift" | .srshift => "srshift"
+  | .slice => "slice" | .mov => "mov" | .smov => "smov" | .amov => "amov"
+  | .ret => "ret" | .gc => "gc" | .circ => "circ"
+
+/-- `c|v . id . key . bits . s|u . cint` -/
+def parseArg (s : String) : Option Arg :=
+  match s.splitOn "." with
+  | [c, id, key, bits, sg, ci] => do
+    some { const := c == "c", id := ← id.toNat?, key := ← key.toNat?, bits := ← bits.toNat?,
+           signed := sg == "s", cint := ← ci.toNat? }
+  | _ => none
+
+/-- `op:out:in|in|...` -/
+def parseStep (s : String) : Option Step :=
+  match s.splitOn ":" with
+  | [op, out, ins] => do
+    let o ← if out == "-" then some none else (parseArg out).map some
+    let is ← if ins == "" then some [] else (ins.splitOn "|").mapM parseArg
+    some { op := parseOp op, ins := is, out := o }
+  | _ => none
+
+def parseSteps (s : String) : Option (List Step) :=
+  if s == "-" then some [] else (s.splitOn ";").mapM parseStep
+
+def parseInputs (s : String) : Option (List (Nat × Nat)) :=
+  (s.splitOn ",").mapM fun p =>
+    match p.splitOn "." with
+    | [k, b] => do some (← k.toNat?, ← b.toNat?)
+    | _ => none
+
+def parseConsts (s : String) : Option (List ConstDef) :=
+  if s == "-" then some [] else
+  (s.splitOn ",").mapM fun p =>
+    match p.splitOn "." with
+    | [k, b] => do
+      some { key := ← k.toNat?, bits := if b == "e" then [] else b.toList.map (· == '1') }
+    | _ => none
+
+def argStr (a : Arg) : String := if a.const then "c" else s!"v{a.id}"
+
+def stepStr (s : Step) : String :=
+  let o := match s.out with
+    | some a => argStr a
+    | none => "-"
+  s!"{opName s.op}({",".intercalate (s.ins.map argStr)})>{o}"
+
+def stepsStr (l : List Step) : String := "/".intercalate (l.map stepStr)
+
+def natsStr (l : List Nat) : String := if l.isEmpty then "-" else ",".intercalate (l.map toString)
+
+def handleGc (full : Bool) (inputs consts steps : String) : String :=
+  match parseInputs inputs, parseConsts consts, parseSteps steps with
+  | some ins, some cs, some prog =>
+    match gcPass prog with
+    | none => "gc-panic"
+    | some out =>
+      let head := s!"steps={stepsStr out}"
+      if !full then head else
+      let (st, tr) := streamTrace ins cs out
+      if st.panic then head ++ ";alloc-panic" else
+      let circ := ",".intercalate (tr.circs.map fun (i, m) => s!"{i}:{m}")
+      head ++ s!";ret={natsStr tr.retIds};circ={circ}"
+  | _, _, _ => "bad-op"
+
+/-! ### `codec`: Streaming.Garble bytes -/
+
+def hexByte (n : Nat) : String :=
+  let d := "0123456789abcdef".toList
+  String.ofList [d.getD (n / 16 % 16) '0', d.getD (n % 16) '0']
+
+def hexBytes (l : List Nat) : String := String.join (l.map hexByte)
+
+def parseIds (s : String) : Option (List Nat) :=
+  if s == "-" then some [] else (s.splitOn ",").mapM String.toNat?
+
+structure CircSpec where
+  c    : Circuit
+  ins  : List Nat
+  outs : List Nat
+
+def parseSpecs : List String → Option (List CircSpec)
+  | [] => some []
+  | nw :: nin :: nout :: gates :: inIds :: outIds :: rest => do
+    let c ← parseCircuit nw nin nout gates
+    let ins ← parseIds inIds
+    let outs ← parseIds outIds
+    let more ← parseSpecs rest
+    some ({ c := c, ins := ins, outs := outs } :: more)
+  | _ => none
+
+/-- `codec <key> <tape> <pids> <x> {<nw> <nin> <nout> <gates> <inIds> <outIds>}*`:
+`NewStreaming` draws `r` and one label pair per id of `pids` from the tape;
+then `Streaming.Garble` is called once per circuit on the same object (the
+tweak counter carries over).  Result: all bytes appended to the connection
+buffer, the garbler's wire pairs on every out id, and the model's own
+decode / re-encode and evaluation cross-checks. -/
+def handleCodec (key tape pids x : String) (specs : List String) : String :=
+  match Aes.bytesOfHex key, Aes.bytesOfHex tape, parseIds pids, parseSpecs specs with
+  | some key, some tape, some pids, some specs =>
+    match Aes.Cipher.new key with
+    | none => "garble-error"
+    | some ciph =>
+      if tape.size < 16 * (1 + pids.length) then "bad-op" else
+      let H := aesHash ciph
+      let r := setS (label128 tape 0)
+      -- NewStreaming: makeLabels for every input id, in order
+      let g0 : Stream.SStore (WireL (BitVec 128)) := Stream.SStore.empty
+      let g0 := (List.range pids.length).foldl (fun (st : Stream.SStore (WireL (BitVec 128))) i =>
+        let l0 := label128 tape (16 * (i + 1))
+        st.setGlob (pids.getD i 0) ⟨l0, l0 ^^^ r⟩) g0
+      let (gst, _, recs) := specs.foldl (fun (acc : Stream.SStore (WireL (BitVec 128)) × Nat ×
+          List (Stream.GateRec (BitVec 128))) sp =>
+        let cx : Stream.SCtx := { ins := sp.ins, outs := sp.outs, numWires := sp.c.numWires }
+        let (st, id, rs) := Stream.streamGarble H r cx sp.c.gates acc.1 acc.2.1
+        (st, id, acc.2.2 ++ rs)) (g0, 0, [])
+      let bytes := Stream.encodeRecs recs
+      let allOuts := specs.flatMap (·.outs)
+      let ostr := String.join (allOuts.map fun w => hex128 (gst.getGlob w).l0 ++ hex128 (gst.getGlob w).l1)
+      -- decoder on the model's own bytes
+      let dec := match (Stream.decodeRecs recs.length bytes : Option (List (Stream.GateRec (BitVec 128)) × List Nat)) with
+        | some (recs', []) => if Stream.encodeRecs recs' == bytes then "rt-ok" else "rt-differs"
+        | _ => "rt-fail"
+      -- evaluation of the stream on the input labels for x
+      let xb := parseBits x
+      let e0 : Stream.SStore (BitVec 128) := Stream.SStore.empty
+      let e0 := (List.range pids.length).foldl (fun (st : Stream.SStore (BitVec 128)) i =>
+        st.setGlob (pids.getD i 0) ((g0.getGlob (pids.getD i 0)).labelFor (xb.getD i false))) e0
+      let ev := match Stream.streamEval H recs e0 0 with
+        | .error _ => "eval-error"
+        | .ok (est, _) =>
+          let bits := allOuts.map fun w => (gst.getGlob w).bitFrom (est.getGlob w)
+          String.ofList (bits.map fun b => match b with
+            | some true => '1' | some false => '0' | none => '?')
+      s!"b={hexBytes bytes};o={ostr};{dec};e={ev}"
+  | _, _, _, _ => "bad-op"
+
+def handle (args : List String) : String :=
+  match args with
+  | ["gc", inputs, consts, steps] => handleGc true inputs consts steps
+  | ["gco", inputs, consts, steps] => handleGc false inputs consts steps
+  | ["skip"] => "unsupported"
+  | "codec" :: key :: tape :: pids :: x :: specs => handleCodec key tape pids x specs
+  | _ => "bad-op"
 
 end Drv.C05
 
